@@ -7,7 +7,7 @@ from vf.ob import obligation, shard
 from tartiflette import Resolver, Directive, Scalar
 
 META = {
-    "bounds": "7 decorated schemas (0..3 different tagging directives on every attachable element, the same directive twice with different arguments, t1 t2 t1, and one where the second directive of every type comes from an `extend`: scalar, input field, input object, argument, field, enum type, enum value, object type — the latter reached through concrete, interface, union and list-of-interface fields) x "
+    "bounds": "8 decorated schemas (one with hook-less / differently-hooked directives between and after the tagging ones; 0..3 different tagging directives on every attachable element, the same directive twice with different arguments, t1 t2 t1, and one where the second directive of every type comes from an `extend`: scalar, input field, input object, argument, field, enum type, enum value, object type — the latter reached through concrete, interface, union and list-of-interface fields) x "
               "0..2 query-side field directives x 3 ways of supplying the input (literal, whole-object variable, variable nested in the object literal); the value and the "
               "query-side directive arguments are unbounded ints",
     "outside": "interface/union type-level hooks; relative order of enum-value vs enum-type output hooks (the property writes 'enum-value/type'); more than 3 directives per element",
@@ -51,6 +51,16 @@ class Tag:
         return ap(v, directive_args["n"])
 
 
+class NoHooks:
+    pass
+
+
+class HalfHooks:
+    """implements a hook kind none of the observed stages uses"""
+    async def on_introspection(self, directive_args, next_directive, introspected_element, ctx, info):
+        return await next_directive(introspected_element, ctx, info)
+
+
 class S:
     def coerce_output(self, v):
         return v
@@ -70,10 +80,14 @@ TAGS = {"S": [11, 12, 13], "x": [21, 22, 23], "I": [31, 32, 33], "arg": [41, 42,
 
 def names_of(k):
     """k = 0..3: that many different directives per element; 4: the SAME directive twice with different arguments; 5: t1, t2, t1"""
-    return {4: ["t1", "t1"], 5: ["t1", "t2", "t1"], 6: ["t1", "t2"]}.get(k, NAMES[:k])
+    return {4: ["t1", "t1"], 5: ["t1", "t2", "t1"], 6: ["t1", "t2"], 7: ["t1", "t2"]}.get(k, NAMES[:k])
 
 
 def dirs(elem, k):
+    if k == 7:
+        # schema 7: a directive WITHOUT any hook (@meta) and one with a single unrelated hook (@half) sit between / after the two tagging directives:
+        # they contribute nothing and take nothing away
+        return "@%s(n: %d) @meta @%s(n: %d) @half" % ("t1", TAGS[elem][0], "t2", TAGS[elem][1])
     return " ".join("@%s(n: %d)" % (nm, TAGS[elem][j]) for j, nm in enumerate(names_of(k)))
 
 
@@ -84,7 +98,7 @@ def dirs_split(elem, which):
 
 
 def sdl(k):
-    d = "\n".join("directive @%s(n: Int!) on %s" % (n, LOCS) for n in NAMES + ["q1", "q2"])
+    d = "\n".join("directive @%s(n: Int!) on %s" % (n, LOCS) for n in NAMES + ["q1", "q2"]) + "\ndirective @meta on %s\ndirective @half on %s" % (LOCS, LOCS)
     if k == 6:
         return d + """
 scalar S %s
@@ -114,10 +128,12 @@ type Query { f(i: I %s): S %s  e(c: Color %s): Color  o: O  io: IO  uo: UO  ios:
 
 
 ENGS = {}
-for _k in range(7):
+for _k in range(8):
     _name = "c13_%d" % _k
     for _d in NAMES + ["q1", "q2"]:
         Directive(_d, schema_name=_name)(Tag(_d))
+    Directive("meta", schema_name=_name)(NoHooks())
+    Directive("half", schema_name=_name)(HalfHooks())
     Scalar("S", schema_name=_name)(S)
 
     @Resolver("Query.f", schema_name=_name)
@@ -239,7 +255,7 @@ def same_log(got, exp):
     return True
 
 
-@obligation(tier="quick", timeout=200, shards=[{"k": k, "qd": qd} for k in range(7) for qd in range(4)],
+@obligation(tier="quick", timeout=200, shards=[{"k": k, "qd": qd} for k in range(8) for qd in range(4)],
             samples=[{"v": 1, "n1": 7, "n2": 9, "mode": 0}, {"v": -5, "n1": 0, "n2": 100, "mode": 2}],
             symbolic=["v: int (unbounded) — the value flowing through the chain", "n1, n2: int — arguments of the query-side directives (through variables)"],
             selectors=["mode: literal / whole-object variable / variable nested in the object literal", "shard: directives per element (0..3), query-side directives (none, one, two, two swapped)"],
@@ -424,7 +440,7 @@ def c13_null_items(which: int) -> bool:
     return verdict(ll == sorted(lo + ln) and dl["os"][1] == dn["on"] and dl["os"][0] == do["o"])
 
 
-@obligation(tier="quick", timeout=120, shards=[{"k": k} for k in range(7)],
+@obligation(tier="quick", timeout=120, shards=[{"k": k} for k in range(8)],
             samples=[{"which": 0, "lit": True}, {"which": 1, "lit": False}],
             selectors=["which: enum round trip / object-typed field", "lit: enum supplied as literal or through a variable"], bounds="4 schemas x 2 positions x 2 supply modes",
             note="enum type/value hooks, argument hooks and object type-level hooks: each instance exactly once per value, input hooks in declaration order, same for literal and variable")
